@@ -34,7 +34,7 @@ func HarnessDrainQuiescent() {
 	cmd := vChoose("command", 3) // 0 redeploy, 1 pause, 2 stop
 	// rollout scenario: the service also has a rollout target, the clients have opted in to it, and the rollout may be
 	// stopped (`rollout stop`) while their requests are in flight there; pause / stop must still drain that target
-	rolloutScenario := !vDirected && vParam("rollout", 0) == 1
+	rolloutScenario := !vDirected && vParam("rollout", 0) >= 1
 	if rolloutScenario {
 		vAssume(cmd != 0)
 		t, _ := NewTarget("rold:80", topts)
@@ -106,7 +106,9 @@ func HarnessDrainQuiescent() {
 			plan.hijack, plan.hijackEnds = true, true
 			plan.service = vDur("session_time" + vItoa(c))
 		}
-		plan.cookie = rolloutScenario
+		// rollout=1: every client has opted in to the rollout targets; rollout=2: every second one (requests in flight on
+		// the active and on the rollout targets at the same time)
+		plan.cookie = rolloutScenario && (vParam("rollout", 0) == 1 || c%2 == 1)
 		vProxyPlans[c] = plan
 		spawnClients = append(spawnClients, func() {
 			go func() {
@@ -179,78 +181,83 @@ func HarnessDrainQuiescent() {
 	vNote(vTraceString())
 	vAssert(err == nil, "drain: command succeeds")
 
-	drained := "old:80"
+	drainedTargets := []string{"old:80"}
 	if rolloutScenario {
-		drained = "rold:80"
+		drainedTargets = []string{"rold:80"}
+		if vParam("rollout", 0) == 2 {
+			drainedTargets = []string{"old:80", "rold:80"}
+		}
 	}
 	drainBeginIdx := vIndexOf("drain_begin", -1)
 	drainBeginAt := int64(-1)
 	if drainBeginIdx >= 0 {
 		drainBeginAt = vTrace[drainBeginIdx].at
 	}
-	for i, e := range vTrace {
-		if e.kind != "forward_begin" || e.target != drained {
-			continue
-		}
-		// find its end
-		endIdx := -1
-		for j := i + 1; j < len(vTrace); j++ {
-			if vTrace[j].kind == "forward_end" && vTrace[j].req == e.req && vTrace[j].target == drained {
-				endIdx = j
-				break
+	for _, drained := range drainedTargets {
+		for i, e := range vTrace {
+			if e.kind != "forward_begin" || e.target != drained {
+				continue
 			}
-		}
-		// a request that obtained the service object the redeploy replaced ("stale"), or that passed the pause gate before
-		// the pause/stop took effect
-		stale := false
-		if li := vIndexOf("lookup", e.req); cmd == 0 && li >= 0 {
-			got, _ := vTrace[li].obj.(*Service)
-			stale = got != nil && got != router.serviceForName("svc")
-		}
-		pastGate := false
-		if gi := vLastGateLeave(i); cmd != 0 && gi >= 0 {
-			pastGate = drainBeginIdx >= 0 && vGateEnterBefore(gi) < drainBeginIdx && PauseWaitAction(vTrace[gi].status) == PauseWaitActionProceed
-		}
-		class := ""
-		// (the instant the target left the draining state, not the return of Drain: the latter is later by the
-		// notification of the load balancer)
-		drainEndIdx := vIndexOf("draining_cleared", -1)
-		if drainEndIdx >= 0 && i > drainEndIdx {
-			// only a request that reaches the target after its drain completed can belong to these classes: during the
-			// drain StartRequest refuses, and whatever it admitted before is waited for
-			if stale {
-				class = " [request that looked up the service before the swap]"
-			} else if pastGate {
-				class = " [request that passed the pause gate before the pause]"
-			}
-		}
-		if i > retIdx {
-			vAssert(false, "drain: no request is sent to a drained target after the command returned"+class)
-		} else if !(endIdx >= 0 && vTrace[endIdx].at <= ret) {
-			// (virtual time: a request cancelled by the drain ends at the instant of its cancellation)
-			vAssert(false, "drain: no request is still being served by a drained target when the command returns"+class)
-		}
-		// in flight when draining began: runs to completion within the timeout, else cut off with 504; upgraded: closed at once
-		if drainBeginIdx >= 0 && i < drainBeginIdx && (endIdx < 0 || endIdx > drainBeginIdx) {
-			plan := vProxyPlans[e.req]
-			res := vClientResults[e.req]
-			deadline := drainBeginAt + int64(drainTimeout)
-			if res == nil {
-				vAssert(false, "drain: a request in flight when draining began is still unanswered")
-			} else if plan.hijackLate {
-				// the upgrade completed (or not) during the drain window: closed by the deadline at the latest
-				vAssert(endIdx >= 0 && vTrace[endIdx].at <= deadline, "drain: a connection that upgrades during the drain is closed by the drain deadline at the latest")
-			} else if plan.hijack {
-				vAssert(endIdx >= 0 && vTrace[endIdx].at == drainBeginAt, "drain: upgraded connections are closed as soon as draining begins")
-			} else if plan.never {
-				vAssert(res.status == 504 && res.at == deadline, "drain: a request still running at the drain deadline is cut off with 504 at the deadline")
-			} else {
-				finish := e.at + int64(plan.service)
-				if finish < deadline {
-					vAssert(res.status == 200 && res.body == "FROM["+drained+"]" && res.at == finish, "drain: a request finishing within the drain timeout completes normally")
+			// find its end
+			endIdx := -1
+			for j := i + 1; j < len(vTrace); j++ {
+				if vTrace[j].kind == "forward_end" && vTrace[j].req == e.req && vTrace[j].target == drained {
+					endIdx = j
+					break
 				}
-				if finish > deadline {
+			}
+			// a request that obtained the service object the redeploy replaced ("stale"), or that passed the pause gate before
+			// the pause/stop took effect
+			stale := false
+			if li := vIndexOf("lookup", e.req); cmd == 0 && li >= 0 {
+				got, _ := vTrace[li].obj.(*Service)
+				stale = got != nil && got != router.serviceForName("svc")
+			}
+			pastGate := false
+			if gi := vLastGateLeave(i); cmd != 0 && gi >= 0 {
+				pastGate = drainBeginIdx >= 0 && vGateEnterBefore(gi) < drainBeginIdx && PauseWaitAction(vTrace[gi].status) == PauseWaitActionProceed
+			}
+			class := ""
+			// (the instant the target left the draining state, not the return of Drain: the latter is later by the
+			// notification of the load balancer)
+			drainEndIdx := vIndexOf("draining_cleared", -1)
+			if drainEndIdx >= 0 && i > drainEndIdx {
+				// only a request that reaches the target after its drain completed can belong to these classes: during the
+				// drain StartRequest refuses, and whatever it admitted before is waited for
+				if stale {
+					class = " [request that looked up the service before the swap]"
+				} else if pastGate {
+					class = " [request that passed the pause gate before the pause]"
+				}
+			}
+			if i > retIdx {
+				vAssert(false, "drain: no request is sent to a drained target after the command returned"+class)
+			} else if !(endIdx >= 0 && vTrace[endIdx].at <= ret) {
+				// (virtual time: a request cancelled by the drain ends at the instant of its cancellation)
+				vAssert(false, "drain: no request is still being served by a drained target when the command returns"+class)
+			}
+			// in flight when draining began: runs to completion within the timeout, else cut off with 504; upgraded: closed at once
+			if drainBeginIdx >= 0 && i < drainBeginIdx && (endIdx < 0 || endIdx > drainBeginIdx) {
+				plan := vProxyPlans[e.req]
+				res := vClientResults[e.req]
+				deadline := drainBeginAt + int64(drainTimeout)
+				if res == nil {
+					vAssert(false, "drain: a request in flight when draining began is still unanswered")
+				} else if plan.hijackLate {
+					// the upgrade completed (or not) during the drain window: closed by the deadline at the latest
+					vAssert(endIdx >= 0 && vTrace[endIdx].at <= deadline, "drain: a connection that upgrades during the drain is closed by the drain deadline at the latest")
+				} else if plan.hijack {
+					vAssert(endIdx >= 0 && vTrace[endIdx].at == drainBeginAt, "drain: upgraded connections are closed as soon as draining begins")
+				} else if plan.never {
 					vAssert(res.status == 504 && res.at == deadline, "drain: a request still running at the drain deadline is cut off with 504 at the deadline")
+				} else {
+					finish := e.at + int64(plan.service)
+					if finish < deadline {
+						vAssert(res.status == 200 && res.body == "FROM["+drained+"]" && res.at == finish, "drain: a request finishing within the drain timeout completes normally")
+					}
+					if finish > deadline {
+						vAssert(res.status == 504 && res.at == deadline, "drain: a request still running at the drain deadline is cut off with 504 at the deadline")
+					}
 				}
 			}
 		}
